@@ -9,8 +9,12 @@
    * when the expiry check fires: expiry not in the future and not extended by the
      application => close 3005; refreshed in time => nothing; it is due at the expiry
      (plus the grace delay whenever a client- or server-initiated refresh set it);
-   * when the presence tick fires: every client-side subscription past expiry + grace is
-     unsubscribed with 2501 (a server-side one closes with 3006), the others stay;
+   * when the presence tick fires: every subscription past expiry + grace that the application
+     does not extend (client-side refresh, or its SubRefreshHandler fails / says expired) is
+     unsubscribed with 2501 (a server-side one closes with 3006), the others stay, an extended
+     one with its new expiry; every positioned subscription whose last position check is more than
+     the check delay ago is checked against the stream: invalid => unsubscribed with 2500 (a
+     server-side one closes with 3010), valid => not checked again before the delay has passed;
    * nothing else closes the connection, and as long as it is open the armed timer is not
      later than any pending deadline (no due check is starved). *)
 From Coq Require Import List NArith Bool.
@@ -38,6 +42,7 @@ Definition out_eqb (a b : out) : bool :=
   | OPing, OPing | ORefreshPush, ORefreshPush => true
   | OClose x, OClose y | OReply x, OReply y => x =? y
   | OUnsub c x, OUnsub d y => (c =? d) && (x =? y)
+  | OAsk c, OAsk d => c =? d
   | _, _ => false
   end.
 
@@ -107,7 +112,15 @@ Definition step_spec (g : cfg) (z : sst) (l : label) (o : list out) (sn : snap) 
             ((e =? 0) || (sn_e sn =? (if z_now z <? e then e else z_now z) + (if c then g_exp_delay g else 0))))
   | LSubscribe b =>
       if negb (z_auth z) then (z, false) else      (* server-side calls need a registered connection *)
-      keep (mkSst (z_now z) false (z_auth z) (z_pinged z) (z_answered z) (z_exp z) (z_csr z) (z_subs z ++ [b]) (z_armed z))
+      keep (mkSst (z_now z) false (z_auth z) (z_pinged z) (z_answered z) (z_exp z) (z_csr z)
+                  (z_subs z ++ [mkSub (sb_name b) (sb_exp b) (sb_csr b) (sb_server b) (sb_pos b) (z_now z) (sb_bad b)])
+                  (z_armed z))
+           (outs_eqb o [])
+  | LStream n bad =>
+      keep (mkSst (z_now z) false (z_auth z) (z_pinged z) (z_answered z) (z_exp z) (z_csr z)
+                  (map (fun x => if sb_name x =? n
+                                 then mkSub n (sb_exp x) (sb_csr x) (sb_server x) (sb_pos x) (sb_check x) bad else x) (z_subs z))
+                  (z_armed z))
            (outs_eqb o [])
   | LPong =>
       if z_auth z && z_pinged z && negb (z_answered z)
@@ -144,7 +157,7 @@ Definition step_spec (g : cfg) (z : sst) (l : label) (o : list out) (sn : snap) 
           if negb (sb_csr b) then keep same (outs_eqb o [OClose 3501]) else
           if (0 <? e) && (e <? z_now z) then keep same (outs_eqb o [OReply 110])
           else keep (mkSst (z_now z) false (z_auth z) (z_pinged z) (z_answered z) (z_exp z) (z_csr z)
-                           (map (fun x => if sb_name x =? n then mkSub n e (sb_csr x) (sb_server x) else x) (z_subs z))
+                           (set_sub_exp (z_subs z) n e)
                            (z_armed z))
                     (outs_eqb o [OReply 0])
       end
@@ -180,12 +193,41 @@ Definition step_spec (g : cfg) (z : sst) (l : label) (o : list out) (sn : snap) 
                   else keep same (outs_eqb o [OClose 3005])
               end
           | OpPresence =>
-              let dead := filter (expired_sub g (z_now z)) (z_subs z) in
-              let alive := filter (fun b => negb (expired_sub g (z_now z) b)) (z_subs z) in
+              (* an expired subscription without client-side refresh is offered to the application *)
+              let extended (b : sub) : option N :=
+                if sb_csr b then None else
+                match g_subrefresh g with
+                | SExtend d => Some (z_now z + d) | SForever => Some 0 | _ => None
+                end in
+              let gone (b : sub) := expired_sub g (z_now z) b && match extended b with None => true | _ => false end in
+              let dead := filter gone (z_subs z) in
+              let alive := flat_map (fun b =>
+                             if expired_sub g (z_now z) b
+                             then match extended b with
+                                  | Some e => [mkSub (sb_name b) e (sb_csr b) (sb_server b) (sb_pos b) (sb_check b) (sb_bad b)]
+                                  | None => []
+                                  end
+                             else [b]) (z_subs z) in
+              (* the handler is asked once about each expired one that is not refreshed client-side *)
+              let asked := filter (fun b => expired_sub g (z_now z) b && negb (sb_csr b)) (z_subs z) in
+              (* position check: due when more than the delay passed since the last (or the subscribe);
+                 an invalid position costs the subscription (2500; server-side: the connection, 3010),
+                 a valid one is remembered as checked now *)
+              let due (b : sub) := (0 <? g_pos_delay g) && sb_pos b && (g_pos_delay g <? z_now z - sb_check b) in
+              let lost := filter (fun b => due b && sb_bad b) alive in
+              let kept := flat_map (fun b =>
+                            if due b then
+                              if sb_bad b then []
+                              else [mkSub (sb_name b) (sb_exp b) (sb_csr b) (sb_server b) (sb_pos b) (z_now z) (sb_bad b)]
+                            else [b]) alive in
               if existsb sb_server dead
               then keep same (existsb (out_eqb (OClose 3006)) o)     (* order against other expired ones is open *)
-              else keep (mkSst (z_now z) false (z_auth z) (z_pinged z) (z_answered z) (z_exp z) (z_csr z) alive (z_armed z))
-                        (bag_eqb o (map (fun b => OUnsub (sb_name b) 2501) dead) &&
+              else if existsb sb_server lost
+              then keep same (existsb (out_eqb (OClose 3010)) o)
+              else keep (mkSst (z_now z) false (z_auth z) (z_pinged z) (z_answered z) (z_exp z) (z_csr z) kept (z_armed z))
+                        (bag_eqb o (map (fun b => OAsk (sb_name b)) asked ++
+                                    map (fun b => OUnsub (sb_name b) 2501) dead ++
+                                    map (fun b => OUnsub (sb_name b) 2500) lost) &&
                          (sn_pr sn =? z_now z + g_presence g))
           end
       end
